@@ -6,7 +6,8 @@ from props import shuf
 TRUSTED = BASE_TRUSTED + ["ristretto255 group laws (hypothesis); ristretto runs are implementation-only"]
 RULE = ("apply_permutation for ALL permutations of N<=4 (quick) / N<=5 (thorough) and gen_shuffle with library-drawn "
         "permutations for N in {0,1,2,3,8,64} on small/16-bit/62-bit sets and N<=3 at 2048 bits, with duplicates and "
-        "identity components; outputs, returned exponents and the permutation sampler (byte-level model of rand's "
+        "identity components, structured caller permutations (reversal, rotations, block rotation, 2- and 3-cycles, random) of "
+        "N in {33,40,100,257} (thorough: up to 1031) and a 700 (3000) ciphertext library shuffle; outputs, returned exponents and the permutation sampler (byte-level model of rand's "
         "Fisher-Yates) compared with the Gallina model; battery on the implementation: returned perm is a permutation, "
         "outputs decrypt to the permuted multiset, cascades of 1..4 mixers preserve the plaintext multiset")
 
@@ -23,8 +24,24 @@ def run(env):
         for pstr, ns in (("2039", [0, 1, 2, 8]), ("65267", [3, 8, 64 if not env.quick else 20]), (str(P62), [1, 2, 8, 64 if not env.quick else 16]), ("2048", [2] if env.quick else [1, 3])):
             for n in ns:
                 specs.append({"ctx": "%s:%s" % (fl, pstr), "n": n, "perm": None, "dup": n % 2 == 0})
+    # larger caller permutations of structured classes (reversal, rotations, block rotation, many cycles, random) and one
+    # big library-drawn shuffle: position relation and multiset checked on the implementation, N <= 100 also in the model
+    def perm_classes(n):
+        rev = list(range(n - 1, -1, -1)); rot1 = list(range(1, n)) + [0]; half = n // 2
+        blk = list(range(half, n)) + list(range(half)); pairs = [i ^ 1 if (i ^ 1) < n else i for i in range(n)]
+        three = [(i // 3) * 3 + (i + 1) % 3 if (i // 3) * 3 + 2 < n else i for i in range(n)]
+        rnd = list(range(n)); r.shuffle(rnd)
+        return [rev, rot1, blk, pairs, three, rnd]
+    for fl in "BM":
+        for n in ((33, 40, 100, 257) if env.quick else (33, 40, 65, 100, 129, 257, 1031)):
+            for k, pm in enumerate(perm_classes(n)):
+                if env.quick and n > 100 and k not in (0, 2, 5):
+                    continue
+                specs.append({"ctx": "%s:2039" % fl, "n": n, "perm": pm, "dup": False, "_notie": n > 100})
+        specs.append({"ctx": "%s:2039" % fl, "n": 700 if env.quick else 3000, "perm": None, "dup": True, "_notie": True})
     env.exhaustive = True
     items = shuf.make_statements(env, specs)
+
     # battery: decrypt inputs and outputs, compare multisets; perm is a permutation
     dec = []
     for sp in specs:
